@@ -4,7 +4,7 @@
    the [dev_fail]-th note_on / control / program_change call of the device raising, an action callback raising an
    Exception (CbExc) or StopIteration (CbStop). *)
 From Isobar Require Import Base.Prelude Sched.Model Sched.TimeProofs Sched.MergeProofs Sched.FaultProofs Sched.RenameProofs Sched.TickFrame Sched.ReachProofs
-  Sched.ExcClass Sched.ExcClassProofs Sched.Reconf Sched.ReconfProofs.
+  Sched.ExcClass Sched.ExcClassProofs Sched.Reconf Sched.ReconfProofs IO.MidiBytes IO.FileWire IO.FileWireProofs Sched.DevFile Sched.DevFileProofs.
 
 (** * Tolerant mode: containment *)
 (* With ignore_exceptions, for EVERY state of the timeline (any number and order of tracks, any streams, any device
@@ -412,4 +412,84 @@ Example C17_reconf_nonvacuous :
   /\ map (fun o => snd (fst o)) (rrun (fx_cfg true) tl0 (fx_rh [RFlag false; RFlag true])) = [ROk; ROk; ROk; ROk; ROk; ROk; ROk; ROk; ROk; ROk]
   /\ uncoupled (fx_cfg false) = true /\ rhist_wf 0 (fun c => c =? 0) (fun _ => false) 0 (fx_rh [RFlag true]) = true
   /\ rall_ticks_ok (fx_cfg false) tl0 (fx_rh [RFlag true]) = true.
+Proof. vm_compute. repeat split. Qed.
+
+(** * Behind a real, stateful output device (Sched/DevFile.v; device state machine of IO/FileWire.v) *)
+(* MidiFileOutputDevice keeps the running time and the time of the last message written; mido refuses a request whose data
+   bytes are out of range.  [wire_ops k ticks]: per timeline tick the requests of that tick (refused ones included), then k
+   device ticks; [placed k 0 ticks]: the accepted requests with the device tick they were made on. *)
+(* a refused request leaves the device as it was, so the file is the file without that request - wherever it was made *)
+Theorem C17_refused_call_leaves_device_unchanged : forall d m, msg_valid m = false -> f_step d (FReq m) = d.
+Proof. exact f_step_refused. Qed.
+Theorem C17_refused_call_not_in_file : forall a m b, msg_valid m = false ->
+  file_written (a ++ FReq m :: b) = file_written (a ++ b).
+Proof. exact file_refused_irrelevant. Qed.
+Theorem C17_file_ignores_refused : forall k ticks,
+  absolute 0 (file_written (wire_ops k (map (filter msg_valid) ticks))) = absolute 0 (file_written (wire_ops k ticks)).
+Proof. exact sched_file_ignores_refused. Qed.
+(* the file a history writes, read back: every accepted request at k * (the timeline tick it was made on), whatever happened to
+   other requests before it; then the closing message *)
+Theorem C17_file_positions : forall k cfg h,
+  absolute 0 (sched_file k cfg h) =
+    placed k 0 (sched_ticks cfg h) ++ [(k * Z.of_nat (length (sched_ticks cfg h)), closing)].
+Proof. exact sched_file_positions. Qed.
+(* the merge theorem when the device refuses a call (dev_fail = Some j) that is not one of track i's ([own_clean], executable):
+   the calls of track i in every tick of the joint run are those of its solo run on a device that refuses nothing; and they
+   are those of the run from which the track f whose call is refused has been left out altogether *)
+Theorem C17_refusal_noninterference : forall i pc pb cfg h,
+  uncoupled (no_fail cfg) = true -> hist_wf i pc pb 0 h = true -> all_ticks_ok cfg tl0 h = true ->
+  own_clean cfg i tl0 h = true ->
+  tick_calls (no_fail cfg) (tl_at i) (solo i 0 h) = map (filter (call_ok pc pb)) (tick_calls cfg tl0 h).
+Proof. exact refusal_merge_from_empty. Qed.
+Theorem C17_refusal_same_as_without : forall i f pc pb cfg h, f <> i ->
+  uncoupled (no_fail cfg) = true -> hist_wf i pc pb 0 h = true ->
+  all_ticks_ok cfg tl0 h = true -> all_ticks_ok (no_fail cfg) tl0 (drop_track f 0 h) = true ->
+  own_clean cfg i tl0 h = true ->
+  map (filter (call_ok pc pb)) (tick_calls cfg tl0 h) =
+  map (filter (call_ok pc pb)) (tick_calls (no_fail cfg) tl0 (drop_track f 0 h)).
+Proof. exact refusal_same_calls_without. Qed.
+(* THE FILE with the failing track = THE FILE without it, for the messages of every healthy track i (by channel) and their
+   absolute ticks: when the device refuses a call of track f ... *)
+Theorem C17_file_same_as_without_refused : forall k i f pc pb cfg h, f <> i ->
+  uncoupled (no_fail cfg) = true -> hist_wf i pc pb 0 h = true ->
+  all_ticks_ok cfg tl0 h = true -> all_ticks_ok (no_fail cfg) tl0 (drop_track f 0 h) = true ->
+  own_clean cfg i tl0 h = true ->
+  filter (fun tm => msg_on pc (snd tm)) (placed k 0 (sched_ticks cfg h)) =
+  filter (fun tm => msg_on pc (snd tm)) (placed k 0 (sched_ticks (no_fail cfg) (drop_track f 0 h))).
+Proof. exact file_same_as_without_refused. Qed.
+(* ... and when track f fails in its pattern or in Event() *)
+Theorem C17_file_same_as_without_stream : forall k i f pc pb cfg h, f <> i ->
+  uncoupled cfg = true -> hist_wf i pc pb 0 h = true ->
+  all_ticks_ok cfg tl0 h = true -> all_ticks_ok cfg tl0 (drop_track f 0 h) = true ->
+  filter (fun tm => msg_on pc (snd tm)) (placed k 0 (sched_ticks cfg h)) =
+  filter (fun tm => msg_on pc (snd tm)) (placed k 0 (sched_ticks cfg (drop_track f 0 h))).
+Proof. exact file_same_as_without_stream. Qed.
+
+(* three tracks on channels 0, 1, 2; the second note of track 1 is 130: the sixth note_on of the performance (j = 5) is refused.
+   Track 1 is removed on tick 2 (its sounding note 50 is still released), the hypotheses of the theorems hold for the observed
+   track 2 (and 0; not for 1, whose call it is), and track 2's part of the file - 480 file ticks per timeline tick - is the same
+   with and without track 1; the refused request put back among the requests of tick 2 changes nothing *)
+Definition dv_cfg (j : option nat) : config := mkConfig 1 [] 0 0 false true j 8.
+Definition dv_h : list op :=
+  [ OSchedule (mkStream [nt 2 60 0 1; nt 2 62 0 1] 0 false) None None None true None true;
+    OSchedule (mkStream [nt 2 50 1 3; nt 2 130 1 1; nt 2 51 1 1] 0 false) None None None true None true;
+    OSchedule (mkStream [nt 1 70 2 1; nt 1 71 2 1; nt 1 72 2 1; nt 1 73 2 1] 0 false) None None None true None true;
+    OTick; OTick; OTick; OTick; OTick ].
+Definition on2 (tm : tmsg) : bool := msg_on (fun c => c =? 2) (snd tm).
+Example C17_device_nonvacuous :
+  nth 2 (tick_calls (dv_cfg None) tl0 dv_h) [] = [CNoteOff 71 2; CNoteOn 62 64 0; CNoteOn 130 64 1; CNoteOn 72 64 2]
+  /\ msg_valid (NoteOn 1 130 64) = false
+  /\ nth 2 (tick_calls (dv_cfg (Some 5%nat)) tl0 dv_h) [] = [CNoteOff 71 2; CNoteOn 62 64 0; CNoteOn 72 64 2]
+  /\ map snd (run (dv_cfg (Some 5%nat)) tl0 dv_h) = [[0]; [0; 1]; [0; 1; 2]; [0; 1; 2]; [0; 1; 2]; [0; 2]; [0; 2]; []]%nat
+  /\ uncoupled (no_fail (dv_cfg (Some 5%nat))) = true /\ hist_wf 2 (fun c => c =? 2) (fun _ => false) 0 dv_h = true
+  /\ all_ticks_ok (dv_cfg (Some 5%nat)) tl0 dv_h = true /\ all_ticks_ok (dv_cfg None) tl0 (drop_track 1 0 dv_h) = true
+  /\ own_clean (dv_cfg (Some 5%nat)) 2 tl0 dv_h = true /\ own_clean (dv_cfg (Some 5%nat)) 0 tl0 dv_h = true
+  /\ own_clean (dv_cfg (Some 5%nat)) 1 tl0 dv_h = false
+  /\ filter on2 (placed 480 0 (sched_ticks (dv_cfg (Some 5%nat)) dv_h)) =
+       [(0, NoteOn 2 70 64); (480, NoteOff 2 70 64); (480, NoteOn 2 71 64); (960, NoteOff 2 71 64);
+        (960, NoteOn 2 72 64); (1440, NoteOff 2 72 64); (1440, NoteOn 2 73 64); (1920, NoteOff 2 73 64)]
+  /\ filter on2 (placed 480 0 (sched_ticks (dv_cfg None) (drop_track 1 0 dv_h))) = filter on2 (placed 480 0 (sched_ticks (dv_cfg (Some 5%nat)) dv_h))
+  /\ (let ticks := sched_ticks (dv_cfg (Some 5%nat)) dv_h in
+      let with_refused := firstn 2 ticks ++ [[NoteOff 2 71 64; NoteOn 1 130 64; NoteOn 0 62 64; NoteOn 2 72 64]] ++ skipn 3 ticks in
+      file_written (wire_ops 480 with_refused) = sched_file 480 (dv_cfg (Some 5%nat)) dv_h).
 Proof. vm_compute. repeat split. Qed.
